@@ -205,6 +205,32 @@ func (s Segment) Recover(params index.Params) error {
 	return nil
 }
 
+// lastOffset returns the offset of the last message of the segment: from its index file,
+// or, if there is none to rely on, from the log itself; ok is false for an empty segment
+func (s Segment) lastOffset(params index.Params) (last int64, ok bool, err error) {
+	if last, ok, err := index.LastOffset(s.Index, s.Offset, params); err == nil {
+		return last, ok, nil
+	}
+
+	log, err := message.OpenReader(s.Log, s.Offset)
+	if err != nil {
+		return 0, false, err
+	}
+	defer func() { _ = log.Close() }()
+
+	var position = log.InitialPosition()
+	for {
+		msg, nextPosition, err := log.Read(position)
+		if errors.Is(err, io.EOF) || errors.Is(err, message.ErrCorrupted) {
+			return last, ok, nil
+		} else if err != nil {
+			return 0, false, err
+		}
+		last, ok = msg.Offset, true
+		position = nextPosition
+	}
+}
+
 func (s Segment) NeedsReindex() (bool, error) {
 	switch info, err := os.Stat(s.Index); {
 	case os.IsNotExist(err):
